@@ -141,9 +141,9 @@ def loader_no_panic(ctx, q):
     valid = z3.Or(*[op == z3.BitVecVal(v, 32) for v in sorted(names_of)])
     fn = mf.get("consume_instruction", file_hint="loader.rs", kind="fn")
     for fopen, bopen in ((False, False), (True, False), (True, True)):
-        eng = sym.Engine([mf], registry, models=[(r"^(\w+::)*(Function|Block)::new$", c05.m_inline_new)], inline=[r"^is_\w+$"], eager=True)
+        eng = sym.Engine([mf], registry, models=c05.loader_models(), inline=[r"^is_\w+$"], eager=True)
         classv = sym.Adt("grammar::Instruction", None, [sym.StrV("?"), op, sym.Sym("caps", "&[Capability]"), sym.Sym("exts", "&[&str]"), sym.Sym("operands", "&[LogicalOperand]")])
-        inst = sym.Adt("Instruction", None, [sym.Ref(("h", "class"), ()), sym.Sym("rtype", "Option<u32>"), sym.Sym("rid", "Option<u32>"), sym.Sym("operands", "Vec<Operand>")])
+        inst = sym.Adt("Instruction", None, [sym.Ref(("h", "class"), ()), sym.Sym("rtype", "Option<u32>"), sym.Sym("rid", "Option<u32>"), sym.Arr([sym.Sym("operand0", "dr::constructs::Operand"), sym.Sym("operand1", "dr::constructs::Operand")], "vec")])
         fval = sym.Adt("Option", "Some", [sym.Sym("curfn", "Function")]) if fopen else sym.Adt("Option", "None", [])
         bval = sym.Adt("Option", "Some", [sym.Sym("curblk", "Block")]) if bopen else sym.Adt("Option", "None", [])
         loader = sym.Adt("Loader", None, [sym.Sym("module", "Module"), fval, bval])
